@@ -16,8 +16,17 @@ def reset_names(start: int = 1_000_000) -> None:
     _counter = itertools.count(start)
 
 
+_last = [0]
+
+
 def fresh_name(prefix: str) -> str:
-    return f"{prefix}!{next(_counter)}"
+    _last[0] = next(_counter)
+    return f"{prefix}!{_last[0]}"
+
+
+def name_mark() -> int:
+    """index of the most recently generated name (names generated later have a larger index)"""
+    return _last[0]
 
 
 class Val:
@@ -146,6 +155,13 @@ class GenVal:
         self.out_set = out_set
         self.count = count
         self.seq = seq
+
+
+class RangeVal:
+    """range(start, stop, step) with symbolic bounds: iterated only by a for loop that has an invariant"""
+
+    def __init__(self, start, stop, step):
+        self.start, self.stop, self.step = start, stop, step
 
 
 class LambdaVal:
